@@ -201,7 +201,8 @@ def _run_vc(args):
         dedup = set()
         for i, p in enumerate(paths):
             for oi, ob in enumerate(p.obls):
-                key = (ob.name, str(ob.hyps[len(hyps):]), str(ob.goal))
+                # structural identity through z3's hash-consing (printing large terms costs far more than solving them)
+                key = (ob.name, tuple(h.get_id() if ip.is_z3(h) else repr(h) for h in ob.hyps[len(hyps):]), ob.goal.get_id() if ip.is_z3(ob.goal) else repr(ob.goal))
                 if key in dedup:  # the same obligation reached along paths that forked later
                     continue
                 dedup.add(key)
